@@ -10,6 +10,7 @@ ID = 'C14'
 GEN = ['kernels', 'classes']
 PROPS = 'Props/C14.v'
 MODEL_VO = ['Model/Dev.v']
+EXTRA_MODEL_VO = ['Proofs/TransEval.v']
 CASE_TYPE = 'leafdev Q * list Q * list Q * Q * list (list Q) * bool'
 CHECKER = 'chk'
 COQ_PRELUDE = '''From Coq Require Import ZArith QArith List Bool.
@@ -35,8 +36,10 @@ RULE = ('cases = (atomic device config incl. ADevice x function AST, in-bounds f
         'cost and hess only; full matrix compared in Coq (tol 1e-9; 5e-5 for SDevice/TDevice whose Hessian the code differentiates '
         'numerically; TDevice diagonal only). Non-trivial: Hessian is not identically zero; distinct by hash.')
 EXPLANATION = ('Props/C14.v: for every n the model Hessian is the Jacobian of the model marginal cost (itself the gradient by C01) for all '
-               'closed-form classes, the thermal diagonal, and storage without the deep-discharge term; symmetry/PSD lemmas. '
-               'Partial: storage with c3 > 0 and ADevice function ASTs are tied by the correspondence and the second-difference oracle only.')
+               'closed-form classes, the thermal diagonal, storage with all three cost terms, and every composition of the function AST; '
+               'symmetry/PSD lemmas. InformationEntropy, TemporalVariance and CobbDouglas (numerical Hessians in the source): closed-form '
+               'Hessians over the reals (Model/Trans.v) proved to be the Jacobians of the closed-form gradients and symmetric; the '
+               'implementation is compared with them by interval arithmetic inside Coq (second correspondence).')
 CLASSES = lg.CLASSES
 
 
@@ -142,6 +145,87 @@ def oracle(c, h=2.0 ** -7):
     if convex and ev.min() < -1e-6 * (1 + abs(ev).max()):
       return 'hess of a convex model is not positive semidefinite (min eigenvalue %.3g)' % ev.min()
   return None
+
+
+# ---- the three numerically differentiated preference functions: reals-only model, interval-arithmetic correspondence -------------
+TVAR_FINDING = 'tvar-hess-probe-hits-zero-total'
+
+
+def _tvar_probe_raises(L, s):
+  d = lg.build(L)
+  try:
+    d.hess(np.array(fl(s)), 0)
+  except ZeroDivisionError:
+    return True
+  return False
+
+
+def witness_fails(f):
+  if f.get('id') != TVAR_FINDING:
+    return True
+  w = f['witness']
+  L = {'cls': 'ADevice', 'n': len(w['s']), 'id': 'a', 'bounds': [(F(0), F(4))] * len(w['s']), 'cbounds': None, 'cb_kind': 'none',
+       'f': ('tvar', F(w['c'])), 'ucons': []}
+  return _tvar_probe_raises(L, [F(v) for v in w['s']])
+
+
+def finding_matches(f, c):
+  return False      # the main correspondence never meets the recorded finding; extra_correspondence() handles it case by case
+
+
+def extra_correspondence(rng, tier):
+  import json
+  import transeval as te
+  n = {'quick': 36, 'thorough': 360}.get(tier, 36)
+  name = 'correspondence:C14:transcendental-functions'
+  known = any(f.get('id') == TVAR_FINDING for f in core.load_findings(ID))
+  cases, props, owner = [], [], []
+  dist, skipped_known = {}, 0
+  for i in range(n):
+    c = te.gen_leaf(rng, i)
+    if c['zero_at'] is not None:
+      continue          # no second derivative at a zero entry of the entropy
+    L = c['leaf']
+    d = lg.build(L)
+    s, p = np.array(fl(c['s'])), np.array(fl(c['p']))
+    try:
+      H = np.array(d.hess(s.copy(), p.copy()), dtype=float)
+    except ZeroDivisionError:
+      if known and c['trans'] == 'tvar':
+        skipped_known += 1
+        continue
+      H = None
+    cases.append(c)
+    k = len(cases) - 1
+    if H is None or H.shape != (L['n'], L['n']) or not np.all(np.isfinite(H)):
+      props.append('(0 = 1)')      # raised / wrong shape / non-finite at a twice differentiable point
+      owner.append(k)
+      continue
+    Hm = {'tvar': lambda: '(tvar_hess %s %s)' % (te.rq(L['f'][1]), te.rlist(c['s'])),
+          'entropy': lambda: '(entropy_hess %s %s)' % (te.rq(L['f'][1]), te.rlist(c['s'])),
+          'cobb': lambda: '(cobb_hess %s %s %s)' % (te.rq(L['f'][2]), te.rlist(L['f'][1]), te.rlist(c['s']))}[c['trans']]()
+    for j in range(L['n']):
+      for q in range(L['n']):       # numdifftools: 1e-6 relative+absolute
+        props.append(te.close_prop('nth %d (nth %d %s []) 0' % (q, j, Hm), fr(H[j, q]), F(1, 10**6)))
+        owner.append(k)
+    for key in ('fn:' + c['trans'], 'n:%d' % L['n']):
+      dist[key] = dist.get(key, 0) + 1
+  idx, err, secs = te.run_checks(ID, props, shard=80)
+  broken, failing = [], []
+  if err:
+    broken.append({'kind': 'correspondence-run', 'name': name, 'detail': err})
+  bad_cases = sorted({owner[i] for i in idx})
+  if bad_cases:
+    failing = [cases[k] for k in bad_cases]
+    broken.append({'kind': 'correspondence', 'name': name,
+                   'detail': '%d of %d cases disagree with the Hessians of Model/Trans.v (interval evaluation); first: %s' % (
+                       len(bad_cases), len(cases), json.dumps(case_to_json(cases[bad_cases[0]]))[:500])})
+  notes = {'transcendental': {'cases': len(cases), 'propositions': len(props), 'disagreeing': len(bad_cases), 'seconds': round(secs, 1),
+                              'skipped_in_known_finding_region': skipped_known, 'distribution': dist,
+                              'rule': 'ADevice over InformationEntropy / TemporalVariance / CobbDouglas, n in 1..6, dyadic flows of magnitude '
+                                      '1/4..4 without zero entries; every entry of the numerical Hessian within 1e-6 (relative+absolute) of '
+                                      'the closed form of Model/Trans.v, each proved in Coq by interval arithmetic'}}
+  return [name], broken, failing, notes
 
 
 def search(rng, budget, seeds, findings):
